@@ -113,11 +113,14 @@ from pyvc.harness import REGISTRY as _REG  # noqa: E402
 from . import c04_synapses as _c04  # noqa: E402,F401
 
 for _cd in list(_REG.get("C04", [])):
-    if _cd.name.endswith(".forward") and not any(x.name == _cd.name for x in _REG.get(P, [])):
+    # ... and the delayed READS of every synapse class: `*_at[wiring]` (the mixins hand the right record, selector,
+    # interpolation, tolerance and overbound to _synparam_at) and the double-exponential synapse's own current_at
+    if (_cd.name.endswith(".forward") or _cd.name.endswith("_at[wiring]") or _cd.name == "DoubleExponentialCurrent.current_at") and not any(x.name == _cd.name for x in _REG.get(P, [])):
         contract(P, _cd.name, list(_cd.targets), min_obligations=_cd.min_obligations)(_cd.fn)
 
 
 MUTANTS = [
+    dict(file="inferno/neural/synapses/expcurrent.py", func="DoubleExponentialCurrent.current_at", old="bounded_selector = selector.clamp(min=0, max=self.spike_.duration)", new="bounded_selector = selector.clamp(min=0, max=self.spike_.dt)", contracts=["DoubleExponentialCurrent.current_at"], name="seed C06f: delays of the double-exponential synapse clamped to one step"),
     dict(file=c05.CONV, func="Conv2D.selector", old='"f c h w -> 1 (c h w) 1 f"', new='"f c h w -> 1 (c w h) 1 f"', contracts=["Conv2D.layouts"], name="seed C06d: delay selector flattens the kernel as (c w h)"),
     dict(file=INF, func="RecordTensor.reset", old="        if fill is not None:", new="        if fill:", contracts=["DeltaCurrent.forward", "SingleExponentialCurrent.forward"], name="seed C06b: clearing with fill 0 leaves the delay history in place"),
     dict(file=SM, func="_synparam_at", old="                tolerance=tolerance,\n", new="", contracts=["_synparam_at[select by contract]"], name="seed C04b: tolerance keyword dropped (select falls back to its own default)"),
